@@ -50,7 +50,7 @@ type rwSpy struct {
 }
 
 func (s *rwSpy) Header() http.Header { return s.h }
-func (s *rwSpy) WriteHeader(c int)  { *s.log = append(*s.log, fmt.Sprintf("H%d", c)) }
+func (s *rwSpy) WriteHeader(c int)   { *s.log = append(*s.log, fmt.Sprintf("H%d", c)) }
 func (s *rwSpy) Write(b []byte) (int, error) {
 	s.writes++
 	n, err := len(b), error(nil)
@@ -74,10 +74,10 @@ func (s rwSpyF) Flush() { *s.log = append(*s.log, "F") }
 
 // rwObs is everything observed while driving one sequence.
 type rwObs struct {
-	log      []string   // calls reaching the underlying writer + hook runs, in order
-	readings [][3]int   // after every op: Status, Size, Written(0/1)
-	rets     [][2]int   // per write op: returned n, err!=nil
-	hookSaw  [][2]int   // per hook run: hook id, Written/Status seen (0 ok, 1 bad)
+	log      []string // calls reaching the underlying writer + hook runs, in order
+	readings [][3]int // after every op: Status, Size, Written(0/1)
+	rets     [][2]int // per write op: returned n, err!=nil
+	hookSaw  [][2]int // per hook run: hook id, Written/Status seen (0 ok, 1 bad)
 	pan      interface{}
 }
 
